@@ -27,7 +27,7 @@ func TestCheck(t *testing.T) {
 	r.SetRule("case = one generated timeline: object under test (context from SuspendableClock.NewContextWithTimeout, timer from NewTimer, or the run context of a " +
 		"LocalBuildExecutor with a blocking fake runner), timeout 0..100 units, threshold 1..10 units, maximum compensation 0..>timeout, start offset, 1-4 readers with " +
 		"non-overlapping-per-reader suspension intervals (direct Suspend/Resume, SuspendingBlobAccess Get/GetFromComposite/Put/FindMissing/GetCapabilities, " +
-		"SuspendingDirectoryFetcher), optional early cancellation/Stop and parent cancellation; operations of different readers at one instant run concurrently. " +
+		"SuspendingDirectoryFetcher; every decorated call also in a failing variant, buffers failing before any data / mid-stream and finished in nine ways incl. early close, size limit, clones), optional early cancellation/Stop and parent cancellation; operations of different readers at one instant run concurrently. " +
 		"Additionally concurrent rounds: 2-6 reader goroutines doing Suspend/Resume pairs (directly and through both decorators) over a base clock that moves on every Now() call and " +
 		"whose Now() may let an intruder's complete Suspend/stall/Resume run between sampling the time and returning it; judged by interval bounds that hold for every interleaving. " +
 		"In the timelines the base clock only moves to the next timeline event or the next base timer; ties are broken by the PRNG. " +
@@ -61,6 +61,12 @@ func TestCheck(t *testing.T) {
 		"early-cancel", "parent-cancel", "via-blob-access", "via-directory-fetcher", "remaining-equals-threshold-rearmed", "deadline-by-unsuspended-time"} {
 		r.Floor(s, 10)
 	}
+	for _, s := range []string{"storage-call-failed-under-suspending-wrapper", "buffer-read-error-under-suspending-wrapper", "conservation-probe-after-timeline",
+		"buffer-finished-by-discard", "buffer-finished-by-to-byte-slice", "buffer-finished-by-size-limit", "buffer-finished-by-to-proto", "buffer-finished-by-read-all",
+		"buffer-finished-by-close-early", "buffer-finished-by-clone-copy", "buffer-finished-by-clone-stream", "buffer-finished-by-chunk-reader"} {
+		r.Floor(s, 10)
+	}
+	r.Floor("later-action-on-same-clock", 5)
 	r.Floor("executor-deadline-exceeded", 5)
 	r.Floor("executor-finished-in-time", 5)
 
